@@ -1,10 +1,10 @@
 """Differential test of model/Agg.v against function::get_aggregate_value (through the harness).
 
-The harness is a release build: usize overflow in get_buffer_sum wraps.  The model is evaluated
-in both modes: `get_aggregate_value_b Release` must equal the harness string exactly, and
-`get_aggregate_value` (= Debug) must be Panic exactly when an independent Python computation of
-the usize sum reaches 2^64 (for the functions that call get_buffer_sum on a non-empty path),
-and equal to the harness string otherwise.
+get_buffer_sum saturates (`sum = sum.saturating_add(value)`), identically in every build.  The model
+is evaluated in both modes: `get_aggregate_value_b Release` and `get_aggregate_value` (= Debug) must
+both equal the harness string exactly; in addition, for SUM, the harness string must equal an
+independent Python computation min(total, 2^64-1).  The buffers whose usize total reaches 2^64
+(for the functions that call get_buffer_sum on a non-empty path) are counted as "saturated cases".
 
 Also tests `partition` against a Python re-implementation of partition_output_buffer (dict of
 lists) as multisets of (key vector, rows)."""
@@ -14,10 +14,11 @@ import re
 import subprocess
 import sys
 
-sys.path.insert(0, "/var/tmp/agents/agg/py")
+import os
+sys.path.insert(0, os.path.dirname(os.path.abspath(__file__)))
 import coqeval
 
-EXE = "/verif/.build/harness/release/fsharness"
+EXE = os.environ.get("AGGDIFF_EXE", "/verif/.build/harness/release/fsharness")
 
 HEADER = coqeval.HEADER + """
 Definition enc (r : res str) : str :=
@@ -65,6 +66,17 @@ def rand_value(rng, flavour):
     if flavour == "big":
         k = rng.choice([53, 53, 63, 63, 64, 62])
         return str((1 << k) + rng.randrange(-3, 4))
+    if flavour == "huge":
+        # totals beyond 2^64: usize::MAX, 2^63 (several of them), values around them, a few small ones
+        if c < 30:
+            return "18446744073709551615"
+        if c < 60:
+            return "9223372036854775808"
+        if c < 75:
+            return str((1 << rng.choice([62, 63, 64])) - rng.randrange(1, 4))
+        if c < 85:
+            return str(rng.randrange(1 << 60, 1 << 64))
+        return str(rng.randrange(0, 100))
     if flavour == "decimal":
         return "%d.%d" % (rng.randrange(0, 1000), rng.randrange(0, 1000))
     # mixed
@@ -107,7 +119,7 @@ def rand_buffer(rng):
         n = rng.randrange(3, 8)
     else:
         n = rng.randrange(8, 40)
-    flavour = rng.choice(["small", "canon", "signed", "big", "decimal", "mixed", "mixed", "mixed", "mixed"])
+    flavour = rng.choice(["small", "canon", "signed", "big", "huge", "huge", "decimal", "mixed", "mixed", "mixed", "mixed"])
     key = rng.choice(KEYS)
     rows = []
     for _ in range(n):
@@ -193,6 +205,7 @@ def main():
     npanic = 0
     stats = {}
     classes = {}
+    persat = {}
     for i, (f, rows, key, d) in enumerate(meta):
         want = real[i]["r"]
         rel, dbg = model[i].split("\x01")
@@ -200,13 +213,14 @@ def main():
         stats[canon] = stats.get(canon, 0) + 1
         cls = "empty" if want == "" else "NaN" if want == "NaN" else "inf" if "inf" in want else "fraction" if "." in want else "integer" if want.lstrip("-").isdigit() else "text"
         classes[cls] = classes.get(cls, 0) + 1
-        ok = rel == "O:" + want
-        overflow = canon in USES_SUM and usize_sum(rows, key) >= (1 << 64) and not (len(rows) == 0)
+        ok = rel == "O:" + want and dbg == "O:" + want
+        total = usize_sum(rows, key)
+        overflow = canon in USES_SUM and total >= (1 << 64) and not (len(rows) == 0)
         if overflow:
             npanic += 1
-            ok = ok and dbg == "P"
-        else:
-            ok = ok and dbg == rel
+            persat[canon] = persat.get(canon, 0) + 1
+        if canon == "sum":
+            ok = ok and want == str(min(total, (1 << 64) - 1))
         if not ok:
             bad += 1
             if bad <= 15:
@@ -219,8 +233,8 @@ def main():
             pbad += 1
             if pbad <= 5:
                 print("PARTITION MISMATCH", repr(want), repr(got))
-    print("seed %d: %d buffers, %d aggregate comparisons, %d mismatches; %d overflow cases (release wraps / debug model = Panic); per function %s" %
-          (seed, nbuf, len(meta), bad, npanic, json.dumps(stats, sort_keys=True)))
+    print("seed %d: %d buffers, %d aggregate comparisons, %d mismatches; %d saturated cases (usize total >= 2^64; both builds of the model = harness) %s; per function %s" %
+          (seed, nbuf, len(meta), bad, npanic, json.dumps(persat, sort_keys=True), json.dumps(stats, sort_keys=True)))
     print("seed %d: result classes %s" % (seed, json.dumps(classes, sort_keys=True)))
     print("seed %d: %d partition comparisons (multiset of groups vs Python dict re-implementation), %d mismatches" % (seed, len(pwant), pbad))
     return 1 if bad or pbad else 0
